@@ -44,19 +44,28 @@ Succ(ph) == CASE ph = "s" -> "t" [] ph = "t" -> "e" [] ph = "e" -> "done"
 
 VARIABLES lim, dummy,          \* configuration of the run: max_retries, DummyFailureManager?
           plan, budget, kind,  \* the failure plan: plan[<<x,ph>>] injected failures (constant), budget = those left, kind[<<x,ph>>]
+          lose,                \* plan, kind "fail_sel" (fail-stop with PARTIAL data loss): lose[<<x,ph>>] = the jobs whose output
+                               \* instances (every generation produced so far, every copy) are lost at each failure of <<x,ph>>;
+                               \* all other data survive (per-job directories instead of a whole location)
           stk,                 \* stack of frames, stk[1] = the original workflow
           cur,                 \* job holding the token, or "none"
           gen, avail, prov,    \* gen[x]; avail[x][g] = the LOCATIONS that hold a copy of the instance (the producer's
                                \* own location + every location a consumer staged a replica on; {} = lost);
-                               \* prov[x][g] = [p -> generation read]
+                               \* prov[x][g] = the parent instances the output token depends on: the inputs the transfer
+                               \* steps staged AND the inputs recorded in the JobToken the execute step used (they differ after a
+                               \* recovery of the transfer step: the JobToken of the interrupted workflow is not replaced)
           version, attempts,   \* RecoveryRequest.version[x]; attempts[x][ph]
           status,              \* "running" | "done" | "raised" | "final"
           hist,                \* jobs in the order they took the token
           failedEver, lostEver, \* history: jobs that failed themselves / had an instance lost when rolled back
-          stale                 \* history: jobs whose "e" failed while the JobToken of their workflow referred to a lost
+          stale,                \* history: jobs whose "e" failed while the JobToken of their workflow referred to a lost
                                 \* instance that their transfer step no longer used (see StaleJobToken)
+          superseded,           \* history: <<job, "late"|"early">>: a recovery met BOTH a lost instance of the job and a newer available
+                                \* one (GraphMapper._update_token: the available one replaces the lost one, the job is NOT rolled back)
+          natural2              \* history: jobs whose transfer failed naturally on two or more inputs at once (their transfer steps
+                                \* recover concurrently on the real engine: outside this sequential module, see RecoveryConc)
 
-vars == <<lim, dummy, plan, budget, kind, stk, cur, gen, avail, prov, version, attempts, status, hist, failedEver, lostEver, stale>>
+vars == <<lim, dummy, plan, budget, kind, lose, stk, cur, gen, avail, prov, version, attempts, status, hist, failedEver, lostEver, stale, superseded, natural2>>
 
 Gens == 0..MaxGen
 NoIns == [p \in Jobs |-> 0]
@@ -75,21 +84,58 @@ Max(S) == CHOOSE m \in S : \A y \in S : y <= m
 \* ProvenanceGraph.build_graph on availability `av`: backward BFS from instances; an available
 \* instance stops the search (it becomes a root to inject), an unavailable one puts its producer in
 \* the roll-back set and the search continues with the instances that producer read.
-RECURSIVE Build(_, _, _, _)
-Build(av, front, rb, inj) ==
+RECURSIVE Build(_, _, _, _, _)
+Build(av, stop, front, rb, inj) ==
   IF front = {} THEN [rb |-> rb, inj |-> inj]
   ELSE LET i == CHOOSE i \in front : TRUE
            p == i[1]
            g == i[2]
-       IN IF av[p][g] # {} THEN Build(av, front \ {i}, rb, inj \cup {i})
-          ELSE Build(av, (front \ {i}) \cup ({<<pp, prov[p][g][pp]>> : pp \in Parents[p]} \ inj), rb \cup {p}, inj)
+       IN IF av[p][g] # {} THEN Build(av, stop, front \ {i}, rb, inj \cup {i})
+          ELSE IF p \in stop THEN Build(av, stop, front \ {i}, rb, inj)
+          ELSE Build(av, stop, (front \ {i}) \cup (prov[p][g] \ inj), rb \cup {p}, inj)
 
-\* GraphMapper._update_token: of two instances of the same port the available one wins
+\* GraphMapper._update_token: of two instances of the same port the available one wins: the lost instance is replaced,
+\* the available one becomes a root (move_token_to_root) and whatever was in the graph only to rebuild the lost instance is
+\* pruned - the second walk does not go behind the lost instances of those jobs.
 Graph(av, start) ==
-  LET b == Build(av, start, {}, {})
-      hasInj == {i[1] : i \in b.inj}
+  LET b1 == Build(av, {}, start, {}, {})
+      both == b1.rb \cap {i[1] : i \in b1.inj}
+      b == IF both = {} THEN b1 ELSE Build(av, both, start, {}, {})
+      inj == b.inj \cup {i \in b1.inj : i[1] \in both}
+      hasInj == {i[1] : i \in inj}
   IN [rb |-> b.rb \ hasInj,
-      port |-> [p \in Jobs |-> IF p \in hasInj THEN Max({i[2] : i \in {k \in b.inj : k[1] = p}}) ELSE 0]]
+      port |-> [p \in Jobs |-> IF p \in hasInj THEN Max({i[2] : i \in {k \in inj : k[1] = p}}) ELSE 0]]
+
+\* ------------------------------------------------------------------------------------------
+\* Order in which create_graph_mapper (a breadth-first walk of the provenance graph from the failed job's inputs) meets
+\* the instances: Levels = {<<instance, level>>}, a parent instance is one level deeper than the unavailable instance
+\* that needs it (minimal level over all paths).
+RECURSIVE Levels(_, _, _, _)
+Levels(av, front, n, acc) ==
+  LET new == front \ {r[1] : r \in acc}
+  IN IF new = {} THEN acc
+     ELSE Levels(av, UNION {IF av[i[1]][i[2]] # {} THEN {} ELSE prov[i[1]][i[2]] : i \in new},
+                 n + 1, acc \cup {<<i, n>> : i \in new})
+LevelOf(lv, i) == (CHOOSE r \in lv : r[1] = i)[2]
+\* the deepest level of anything that is in the graph only in order to rebuild the (lost) instance i
+\* (for a job without parents: the workflow input token, one level deeper)
+RECURSIVE EndLevel(_, _, _)
+EndLevel(av, lv, i) ==
+  IF av[i[1]][i[2]] # {} THEN LevelOf(lv, i)
+  ELSE IF Parents[i[1]] = {} THEN LevelOf(lv, i) + 1
+  ELSE Max({LevelOf(lv, i)} \cup {EndLevel(av, lv, j) : j \in prov[i[1]][i[2]]})
+\* The jobs of which the walk meets a lost instance AND an available one.  The specification (what the statement
+\* requires, and what _update_token intends): the available instance wins, the job is not rolled back.  "late": the
+\* available instance is met only after the lost one and everything behind it have been processed - the one order in
+\* which the implementation's replace + move_token_to_root is complete; "early": any other order (the tokens behind
+\* the lost instance are added to the mapper after, or merged into, the available one).
+Superseded(av, start) ==
+  LET lv == Levels(av, start, 0, {})
+      ins == {r[1] : r \in lv}
+      both == {p \in Jobs : (\E i \in ins : i[1] = p /\ av[p][i[2]] = {}) /\ (\E i \in ins : i[1] = p /\ av[p][i[2]] # {})}
+  IN {<<p, IF \A i \in ins, j \in ins : (i[1] = p /\ j[1] = p /\ av[p][i[2]] = {} /\ av[p][j[2]] # {})
+                                         => LevelOf(lv, j) > EndLevel(av, lv, i)
+              THEN "late" ELSE "early">> : p \in both}
 
 \* the failed job's inputs the graph is built from: ScheduleStep: the tokens in the ports; TransferStep: the inputs
 \* recorded in the JobToken; ExecuteStep: the staged tokens (never available themselves: their sources)
@@ -100,19 +146,21 @@ StartInstances(f, x, ph) ==
 \* ------------------------------------------------------------------------------------------
 Init ==
   /\ plan \in [Jobs \X PhSet -> Nat] /\ kind \in [Jobs \X PhSet -> {"soft", "fail_stop"}]   \* narrowed by the MC module
-  /\ budget = plan /\ lim = Limit /\ dummy = Dummy
+  /\ budget = plan /\ lim = Limit /\ dummy = Dummy /\ lose \in [Jobs \X PhSet -> SUBSET Jobs]
   /\ stk = <<Frame0>> /\ cur = "none"
   /\ gen = [x \in Jobs |-> 0]
   /\ avail = [x \in Jobs |-> [g \in Gens |-> {}]]
-  /\ prov = [x \in Jobs |-> [g \in Gens |-> NoIns]]
+  /\ prov = [x \in Jobs |-> [g \in Gens |-> {}]]
   /\ version = [x \in Jobs |-> 1]
   /\ attempts = [x \in Jobs |-> [ph \in PhSet |-> 0]]
   /\ status = "running" /\ hist = <<>>
-  /\ failedEver = {} /\ lostEver = {} /\ stale = {}
+  /\ failedEver = {} /\ lostEver = {} /\ stale = {} /\ superseded = {} /\ natural2 = {}
 
 Ready(f, x) == f.next[x] \in PhSet /\ \A p \in Parents[x] : f.port[p] # 0
 
 Wiped(l) == [y \in Jobs |-> [g \in Gens |-> avail[y][g] \ {l}]]
+\* fail-stop with partial data loss: every instance (all generations, all copies) of the jobs in S is lost
+LostOf(S) == [y \in Jobs |-> [g \in Gens |-> IF y \in S THEN {} ELSE avail[y][g]]]
 \* a transfer towards another location leaves a replica there, registered as a related PRIMARY data location
 \* (FileToken.is_available: the file exists in AT LEAST ONE of its locations)
 StagedAt(f, x) == [y \in Jobs |-> [g \in Gens |-> IF y \in Parents[x] /\ g = f.port[y] /\ Loc[y] # Loc[x]
@@ -146,6 +194,7 @@ RecoverP(x, ph) ==
   IN /\ failedEver' = failedEver \cup {x}
      /\ stale' = IF StaleJobToken(f, x, ph) THEN stale \cup {x} ELSE stale
      /\ lostEver' = lostEver \cup g.rb
+     /\ superseded' = superseded \cup Superseded(avail', StartInstances(f, x, ph))
      /\ cur' = "none"
      /\ IF dummy \/ \E y \in roll : version[y] >= lim
           THEN /\ status' = "raised"
@@ -169,15 +218,16 @@ RunPhase(x) ==
         /\ IF budget[k] > 0
              THEN \* injected failure (soft, or fail-stop = the location is wiped first)
                   /\ budget' = [budget EXCEPT ![k] = @ - 1]
-                  /\ avail' = IF kind[k] = "fail_stop" THEN Wiped(Loc[x]) ELSE avail
-                  /\ UNCHANGED <<gen, prov, kind, plan, lim, dummy>>
+                  /\ avail' = CASE kind[k] = "fail_stop" -> Wiped(Loc[x]) [] kind[k] = "fail_sel" -> LostOf(lose[k]) [] OTHER -> avail
+                  /\ UNCHANGED <<gen, prov, kind, plan, lose, lim, dummy, natural2>>
                   /\ RecoverP(x, ph)
              ELSE IF ph = "t" /\ \E p \in Parents[x] : avail[p][f.port[p]] = {}
              THEN \* natural failure: the instance in this workflow's port is gone
-                  /\ UNCHANGED <<lim, dummy, plan, budget, kind, avail, gen, prov>>
+                  /\ UNCHANGED <<lim, dummy, plan, budget, kind, lose, avail, gen, prov>>
+                  /\ natural2' = IF Cardinality({p \in Parents[x] : avail[p][f.port[p]] = {}}) > 1 THEN natural2 \cup {x} ELSE natural2
                   /\ RecoverP(x, ph)
              ELSE \* success
-                  /\ UNCHANGED <<lim, dummy, plan, budget, kind, version, failedEver, lostEver, stale>>
+                  /\ UNCHANGED <<lim, dummy, plan, budget, kind, lose, version, failedEver, lostEver, stale, superseded, natural2>>
                   /\ LET g1 == gen[x] + 1
                          f1 == CASE ph = "s" -> [f EXCEPT !.next[x] = "t", !.jobtok[x] = [p \in Jobs |-> IF p \in Parents[x] THEN f.port[p] ELSE 0]]
                                  [] ph = "t" -> [f EXCEPT !.next[x] = "e", !.staged[x] = [p \in Jobs |-> IF p \in Parents[x] THEN f.port[p] ELSE 0]]
@@ -185,7 +235,7 @@ RunPhase(x) ==
                      IN /\ IF ph = "e"
                              THEN /\ gen' = [gen EXCEPT ![x] = g1]
                                   /\ avail' = [avail EXCEPT ![x][g1] = {Loc[x]}]
-                                  /\ prov' = [prov EXCEPT ![x][g1] = f.staged[x]]
+                                  /\ prov' = [prov EXCEPT ![x][g1] = {<<p, f.staged[x][p]>> : p \in Parents[x]} \cup {<<p, f.jobtok[x][p]>> : p \in Parents[x]}]
                              ELSE /\ avail' = IF ph = "t" THEN StagedAt(f, x) ELSE avail
                                   /\ UNCHANGED <<gen, prov>>
                         /\ stk' = IF Len(stk) > 1 /\ f.fj = x /\ f.upto = ph THEN Pop(stk, f1, x, ph) ELSE SetTop(f1)
@@ -193,7 +243,7 @@ RunPhase(x) ==
                         /\ status' = IF Len(stk') = 1 /\ \A y \in Jobs : stk'[1].next[y] = "done" THEN "done" ELSE "running"
 
 Finalize == /\ status \in {"done", "raised"} /\ status' = "final"
-            /\ UNCHANGED <<lim, dummy, plan, budget, kind, stk, cur, gen, avail, prov, version, attempts, hist, failedEver, lostEver, stale>>
+            /\ UNCHANGED <<lim, dummy, plan, budget, kind, lose, stk, cur, gen, avail, prov, version, attempts, hist, failedEver, lostEver, stale, superseded, natural2>>
 
 Next == (\E x \in Jobs : RunPhase(x)) \/ Finalize
 Spec == Init /\ [][Next]_vars /\ WF_vars(Next)
